@@ -7,6 +7,8 @@
    the chains themselves (user code, any operators) and the world are universally quantified. *)
 From Coq Require Import List ZArith Lia.
 From Join Require Import Tok Names Ast Comp Std Denote Spec Leaves SpecProps.
+From Join Require RefineCorollaries.
+From Join Require Ir Gen RefineBase RefineChain RefineProg RefineTop.
 
 (* OBLIGATION result_positions_join *)
 (* join! (sequential, non-try), for EVERY branch count n >= 1 and EVERY depth profile: whatever the world
@@ -59,3 +61,46 @@ Print Assumptions try_success_tuple_positions.
 Example initial_state_ok : forall (p : sprog) T,
   StateOK p T 0 (map (fun _ => None) (sp_trees p)).
 Proof. intros p T. split; [apply map_length|]. intros b _ H. inversion H. Qed.
+
+(* the tie between Spec.v and the generator model, PROVED for all eight kinds and all inputs (theories/proofs/RefineTop.v):
+   what is proved about `spec` above holds of the meaning of the generated code *)
+(* OBLIGATION generated_code_refines_reference_semantics *)
+Theorem generated_code_refines_reference_semantics :
+  forall (msem : string -> option (list operand) -> dval -> list dval -> comp dval)
+         (dotsem : operand -> list (string * option val) -> dval -> comp dval)
+         (callsem : val -> list dval -> comp dval) (awaitsem : val -> comp val),
+    (forall m tf r ds, RefineBase.leaves RefineChain.not_clo (msem m tf r ds)) ->
+    (forall o sn r, RefineBase.leaves RefineChain.not_clo (dotsem o sn r)) ->
+    (forall f ds, RefineBase.leaves RefineChain.not_clo (callsem f ds)) ->
+    forall (cfg : config) (inp : input) (e : Ir.rexpr) (sp : sprog),
+      RefineProg.wf inp -> Gen.gen cfg inp = Ir.Ok e -> prepare cfg inp = Some sp ->
+      den (user_names inp) msem dotsem callsem awaitsem e empty_env = spec msem dotsem callsem awaitsem sp.
+Proof. exact RefineTop.gen_refines_spec. Qed.
+Print Assumptions generated_code_refines_reference_semantics.
+
+(* OBLIGATION generated_join_result_positions *)
+(* C04 for the GENERATED code of join! (no handler): every way den (gen cfg inp) can end satisfies ResultOK - position b holds a value of branch b's last step *)
+Theorem generated_join_result_positions :
+  forall
+    (msem : String.string ->
+            option (list Tok.operand) -> Comp.dval -> list Comp.dval -> Comp.comp Comp.dval)
+    (dotsem : Tok.operand -> list (String.string * option Comp.val) -> Comp.dval -> Comp.comp Comp.dval)
+    (callsem : Comp.val -> list Comp.dval -> Comp.comp Comp.dval)
+    (awaitsem : Comp.val -> Comp.comp Comp.val),
+  (forall (m : String.string) (tf : option (list Tok.operand)) (r : Comp.dval) (ds : list Comp.dval),
+   RefineBase.leaves RefineChain.not_clo (msem m tf r ds)) ->
+  (forall (o : Tok.operand) (sn : list (String.string * option Comp.val)) (r : Comp.dval),
+   RefineBase.leaves RefineChain.not_clo (dotsem o sn r)) ->
+  (forall (f : Comp.val) (ds : list Comp.dval), RefineBase.leaves RefineChain.not_clo (callsem f ds)) ->
+  forall (inp : Ast.input) (e : Ir.rexpr) (sp : Spec.sprog) (T : nat -> nat -> Comp.dval -> Prop),
+  let cfg := {| Ast.is_async := false; Ast.is_try := false; Ast.is_spawn := false |} in
+  Ast.i_handler inp = None ->
+  RefineProg.wf inp ->
+  Gen.gen cfg inp = Ir.Ok e ->
+  Spec.prepare cfg inp = Some sp ->
+  (forall (sn : list (String.string * option Comp.val)) (cp : Spec.caps) (k : nat) 
+     (st : Spec.state) (b : nat), Leaves.leaves (Spec.chain msem dotsem callsem sp sn cp k st b) (T b k)) ->
+  Leaves.leaves (Denote.den (Spec.user_names inp) msem dotsem callsem awaitsem e Denote.empty_env)
+    (SpecProps.ResultOK sp T).
+Proof. exact (@RefineCorollaries.den_gen_result_positions). Qed.
+Print Assumptions generated_join_result_positions.
